@@ -55,12 +55,6 @@ Section Progress.
 Variable C : icfg.
 Let U := c_uni C.
 
-Definition all_irules : list irule :=
-  [IEscape; ICodespan; IEmphasis; ILink; IAutoLink; IAutoEmail; IInlineHtml; ILinebreak; ISoftbreak; IPrecAutoLink; IPrecInlineHtml].
-
-Lemma all_irules_complete r : In r all_irules.
-Proof. destruct r; cbn; tauto. Qed.
-
 Definition solid (r : rx) : bool := wf r && negb (nullable r).
 
 (* what the theorems need from the configuration; evaluated on the regenerated instance in Props/C01.v *)
@@ -73,7 +67,8 @@ Record cfg_ok : Prop := {
   ok_href : solid (c_href_inline C) = true;
   ok_title : wf (c_title C) = true;
   ok_paren : wf (c_paren_end C) = true;
-  ok_emph : forall mk er, c_emph_end C mk = Some er -> wf er = true
+  ok_emph : forall mk er, c_emph_end C mk = Some er -> wf er = true;
+  ok_ext : forall i name er, c_ext C i = Some (XToEnd name er) -> wf er = true
 }.
 
 Hypothesis OK : cfg_ok.
@@ -280,6 +275,13 @@ Proof.
   - inv_ok H. lia.
   - (* prec_auto_link *) destruct (in_link fl); [inv_ok H; lia|]. destruct (c_escape_url C _); inv_ok H. lia.
   - inv_ok H. lia.
+  - (* plugin rule *)
+    destruct (c_ext C i) as [[name er|name|]|] eqn:Ex; [| | |discriminate].
+    + destruct (re_search (c_uni C) er src (mend m) (length src)) as [m1|] eqn:Es; [|inv_ok H].
+      destruct (re_search_pos _ _ _ _ _ _ (ok_ext OK _ _ _ Ex) Es) as (A & B & _). unfold bind in H.
+      destruct (irender C h _ fl); inv_ok H. unfold mend in *. lia.
+    + unfold bind in H. destruct (irender C h _ fl); inv_ok H. lia.
+    + destruct (in_link fl); [inv_ok H; lia|]. destruct (c_escape_url C _); inv_ok H. lia.
 Qed.
 
 (* ---- no loop of the model runs out of fuel ---- *)
@@ -376,12 +378,27 @@ Definition deps (rk : irule) : list irule :=
 Lemma slice_len (s : str) a b : length (slice s a b) <= length s - a.
 Proof. unfold slice. rewrite firstn_length, skipn_length. lia. Qed.
 
+Lemma irender_nil0 h fl : irender C h [] fl = Ok [TText []].
+Proof. reflexivity. Qed.
+
+Lemma slice_len0 (s : str) a b : length (slice s a b) <= length s - a.
+Proof. unfold slice. rewrite firstn_length, skipn_length. lia. Qed.
+
+Lemma replace_bs_len : forall s skip, length (replace_aux [92; 32]%Z [32%Z] skip s) <= length s.
+Proof.
+  induction s as [|c s IH]; intros skip; [cbn; lia|]. cbn [replace_aux]. destruct skip as [|k]; [|specialize (IH k); cbn; lia].
+  destruct (prefixb [92; 32]%Z (c :: s)); cbn [app length]; [specialize (IH 1)|specialize (IH 0)]; cbn in *; lia.
+Qed.
+
 Lemma handle_with_nofuel h rk m src fl : mstart m < mend m ->
-  (forall text fl', length text <= length src - mend m -> irender C h text fl' <> Fuel) ->
+  (forall text fl', length text < length src -> irender C h text fl' <> Fuel) ->
   (forall rule, In rule (deps rk) -> forall m2 fl', mstart m2 < mend m2 -> h rule m2 src fl' <> Fuel) ->
   handle_with C h rk m src fl <> Fuel.
 Proof.
-  intros Lm Hr Hd. assert (Lp : 1 <= mend m) by lia. unfold handle_with. destruct rk; try discriminate.
+  intros Lm Hr0 Hd. assert (Lp : 1 <= mend m) by lia.
+  assert (Hr : forall text fl', length text <= length src - mend m -> irender C h text fl' <> Fuel).
+  { intros text fl' Ht. destruct text as [|c0 t0]; [rewrite irender_nil0; discriminate|]. apply Hr0. cbn [length] in *. lia. }
+  unfold handle_with. destruct rk; try discriminate.
   - (* codespan *) destruct (re_match _ _ _ _ _); [destruct (group_n _ _ _)|]; discriminate.
   - (* emphasis *)
     destruct (_ || _); [discriminate|]. destruct (c_emph_end C _) as [er|] eqn:Ee; [|discriminate].
@@ -416,6 +433,21 @@ Proof.
   - (* auto_link *) destruct (in_link fl); [discriminate|]. destruct (c_escape_url C _); discriminate.
   - destruct (in_link fl); [discriminate|]. destruct (c_escape_url C _); discriminate.
   - destruct (in_link fl); [discriminate|]. destruct (c_escape_url C _); discriminate.
+  - (* plugin rule *)
+    destruct (c_ext C i) as [[name er|name|]|] eqn:Ex; [| | |discriminate].
+    + destruct (re_search (c_uni C) er src (mend m) (length src)) as [m1|] eqn:Es; [|discriminate]. unfold bind.
+      pose proof (Hr (slice src (mend m) (mend m1 - 2)) fl (slice_len0 src (mend m) (mend m1 - 2))) as Hx.
+      destruct (irender C h _ fl); [discriminate|discriminate|contradiction].
+    + unfold bind.
+      assert (Hx : irender C h (replace [92; 32]%Z [32%Z] (slice (group0 src m) 1 (length (group0 src m) - 1))) fl <> Fuel).
+      { set (mk := group0 src m). set (tx := replace [92; 32]%Z [32%Z] (slice mk 1 (length mk - 1))).
+        destruct tx as [|c0 t0] eqn:Et; [rewrite irender_nil0; discriminate|]. apply Hr0.
+        assert (L1 : length tx <= length (slice mk 1 (length mk - 1))) by (unfold tx, replace; apply replace_bs_len).
+        assert (L2 : length (slice mk 1 (length mk - 1)) <= length mk - 1) by (pose proof (slice_len0 mk 1 (length mk - 1)); lia).
+        assert (L3 : length mk <= length src) by (unfold mk, group0; pose proof (slice_len0 src (mstart m) (mend m)); lia).
+        rewrite Et in L1. cbn [length] in *. lia. }
+      destruct (irender C h _ fl); [discriminate|discriminate|contradiction].
+    + destruct (in_link fl); [discriminate|]. destruct (c_escape_url C _); discriminate.
 Qed.
 
 Lemma handle_progresses fuel : progresses (handle C fuel).
@@ -425,9 +457,11 @@ Proof.
   - apply handle_with_progress.
 Qed.
 
-Lemma leaf_nofuel h rk m src fl : rk <> IEmphasis -> rk <> ILink -> handle_with C h rk m src fl <> Fuel.
+Definition is_leaf (rk : irule) : bool := match rk with IEmphasis | ILink | IExt _ => false | _ => true end.
+
+Lemma leaf_nofuel h rk m src fl : is_leaf rk = true -> handle_with C h rk m src fl <> Fuel.
 Proof.
-  intros N1 N2. unfold handle_with. destruct rk; try discriminate; try contradiction.
+  intros N1. unfold handle_with. destruct rk; try discriminate N1; try discriminate.
   - destruct (re_match _ _ _ _ _); [destruct (group_n _ _ _)|]; discriminate.
   - destruct (in_link fl); [discriminate|]. destruct (c_escape_url C _); discriminate.
   - destruct (in_link fl); [discriminate|]. destruct (c_escape_url C _); discriminate.
@@ -441,36 +475,34 @@ Proof. reflexivity. Qed.
 Theorem handle_nofuel : forall L fuel src, length src <= L -> 2 * L + 3 <= fuel -> nofuel_on (handle C fuel) src.
 Proof.
   induction L as [|L' IH]; intros fuel src Hlen Hfuel rk m fl Lm.
-  - (* empty text: only texts of length 0 are rendered below *)
-    assert (Htext : forall g text fl', length text <= length src - mend m -> irender C (handle C g) text fl' <> Fuel).
-    { intros g text fl' Ht. destruct text; [rewrite irender_nil; discriminate|cbn in Ht; lia]. }
+  - (* empty text: nothing shorter exists *)
     destruct fuel as [|f]; [lia|]. cbn [handle].
-    assert (Hleaf : forall g rule m2 fl', 1 <= g -> rule <> IEmphasis -> rule <> ILink -> handle C g rule m2 src fl' <> Fuel).
-    { intros g rule m2 fl' Hg N1 N2. destruct g; [lia|]. cbn [handle]. apply leaf_nofuel; assumption. }
+    assert (Hleaf : forall g rule m2 fl', 1 <= g -> is_leaf rule = true -> handle C g rule m2 src fl' <> Fuel).
+    { intros g rule m2 fl' Hg N1. destruct g; [lia|]. cbn [handle]. apply leaf_nofuel; assumption. }
     assert (Hlink : forall g m2 fl', 1 <= g -> mstart m2 < mend m2 -> handle C (S g) ILink m2 src fl' <> Fuel).
     { intros g m2 fl' Hg L2. cbn [handle]. apply handle_with_nofuel; [exact L2| |].
-      - intros text fl2 Ht. destruct text; [rewrite irender_nil; discriminate|cbn in Ht; lia].
-      - intros rule Hin m3 fl3 L3. apply Hleaf; [exact Hg| |]; cbn in Hin; destruct Hin as [<-|[<-|[<-|[]]]]; discriminate. }
-    apply handle_with_nofuel; [exact Lm|apply Htext|].
+      - intros text fl2 Ht. lia.
+      - intros rule Hin m3 fl3 L3. apply Hleaf; [exact Hg|]; cbn in Hin; destruct Hin as [<-|[<-|[<-|[]]]]; reflexivity. }
+    apply handle_with_nofuel; [exact Lm|intros text fl' Ht; lia|].
     intros rule Hin m2 fl2 L2. destruct rk; cbn in Hin; try contradiction.
-    + destruct Hin as [<-|[<-|[<-|[<-|[]]]]]; try (apply Hleaf; [lia|discriminate|discriminate]).
+    + destruct Hin as [<-|[<-|[<-|[<-|[]]]]]; try (apply Hleaf; [lia|reflexivity]).
       destruct f as [|g]; [lia|]. apply Hlink; [lia|exact L2].
-    + destruct Hin as [<-|[<-|[<-|[]]]]; apply Hleaf; try lia; discriminate.
-  - assert (Htext : forall g text fl', 2 * L' + 3 <= g -> length text <= length src - mend m -> forall mm, mend mm = mend m -> irender C (handle C g) text fl' <> Fuel).
-    { intros g text fl' Hg Ht mm _. apply irender_nofuel; [apply handle_progresses|]. apply (IH g text); [lia|exact Hg]. }
+    + destruct Hin as [<-|[<-|[<-|[]]]]; apply Hleaf; try lia; reflexivity.
+  - assert (Htext : forall g text fl', 2 * L' + 3 <= g -> length text < length src -> irender C (handle C g) text fl' <> Fuel).
+    { intros g text fl' Hg Ht. apply irender_nofuel; [apply handle_progresses|]. apply (IH g text); [lia|exact Hg]. }
     destruct fuel as [|f]; [lia|]. cbn [handle].
-    assert (Hleaf : forall g rule m2 fl', 1 <= g -> rule <> IEmphasis -> rule <> ILink -> handle C g rule m2 src fl' <> Fuel).
-    { intros g rule m2 fl' Hg N1 N2. destruct g; [lia|]. cbn [handle]. apply leaf_nofuel; assumption. }
+    assert (Hleaf : forall g rule m2 fl', 1 <= g -> is_leaf rule = true -> handle C g rule m2 src fl' <> Fuel).
+    { intros g rule m2 fl' Hg N1. destruct g; [lia|]. cbn [handle]. apply leaf_nofuel; assumption. }
     assert (Hlink : forall g m2 fl', 2 * L' + 3 <= g -> mstart m2 < mend m2 -> handle C (S g) ILink m2 src fl' <> Fuel).
     { intros g m2 fl' Hg L2. cbn [handle]. apply handle_with_nofuel; [exact L2| |].
-      - intros text fl2 Ht. apply irender_nofuel; [apply handle_progresses|]. apply (IH g text); [lia|exact Hg].
-      - intros rule Hin m3 fl3 L3. apply Hleaf; [lia| |]; cbn in Hin; destruct Hin as [<-|[<-|[<-|[]]]]; discriminate. }
+      - intros text fl2 Ht. apply Htext; assumption.
+      - intros rule Hin m3 fl3 L3. apply Hleaf; [lia|]; cbn in Hin; destruct Hin as [<-|[<-|[<-|[]]]]; reflexivity. }
     apply handle_with_nofuel; [exact Lm| |].
-    + intros text fl' Ht. apply (Htext f text fl' ltac:(lia) Ht m eq_refl).
+    + intros text fl' Ht. apply Htext; [lia|exact Ht].
     + intros rule Hin m2 fl2 L2. destruct rk; cbn in Hin; try contradiction.
-      * destruct Hin as [<-|[<-|[<-|[<-|[]]]]]; try (apply Hleaf; [lia|discriminate|discriminate]).
+      * destruct Hin as [<-|[<-|[<-|[<-|[]]]]]; try (apply Hleaf; [lia|reflexivity]).
         destruct f as [|g]; [lia|]. apply Hlink; [lia|exact L2].
-      * destruct Hin as [<-|[<-|[<-|[]]]]; apply Hleaf; try lia; discriminate.
+      * destruct Hin as [<-|[<-|[<-|[]]]]; apply Hleaf; try lia; reflexivity.
 Qed.
 
 (* the model of InlineParser.__call__ terminates: for every text, flag setting and reference table *)
